@@ -151,11 +151,15 @@ AlgoConv(d, a, b) == Value(d, b) \ominus Value(d, a)
      t = "uc"     UnitConverter::convert(dim::a, dim::b)
      t = "const"  tools::conv::<a>
      t = "lammps" the factor applied by <a> (e.g. "dumpreader:force")
+     t = "io"     the factor applied by another trajectory reader/writer <a> (gro, xyz, pdb, dlpoly)
+     t = "expr"   a product of constants used in the sources / a literal of a script (<a>)
      t = "gen"    a generator of the checker's own table (self checks only)        *)
 UC(d, a, b) == [t |-> "uc", dim |-> d, a |-> a, b |-> b]
 CONST(n) == [t |-> "const", dim |-> "", a |-> n, b |-> ""]
 LMP(n) == [t |-> "lammps", dim |-> "", a |-> n, b |-> ""]
 GEN(g) == [t |-> "gen", dim |-> "", a |-> g, b |-> ""]
+IO(n) == [t |-> "io", dim |-> "", a |-> n, b |-> ""]
+EXPR(n) == [t |-> "expr", dim |-> "", a |-> n, b |-> ""]
 
 \* constants.h, "unitA2unitB" = number of B in one A
 ConstVec == [
@@ -201,15 +205,62 @@ LammpsVec == [
   datareader_pos |-> In("distance"), datareader_box |-> In("distance"),
   datareader_mass |-> In("mass"), datareader_charge |-> In("charge")]
 
+
+(* The other trajectory formats.  gro declares the csg system itself; xyz and pdb declare only
+   angstroms; DL_POLY (HISTORY/CONFIG) declares angstroms, picoseconds, atomic mass units and
+   angstroms_per_picosecond.  DL_POLY forces are in the COHERENT unit of that system,
+   u A ps^-2 (= 10 J/mol/A, DL_POLY's internal unit); the enums of unitconverter.h cannot express it -
+   the classes declare joules_per_mole / kilojoules_per_mole_angstrom, which the checker reports as a
+   documentation warning, while the applied factor is held against the coherent unit.            *)
+GroSys == Csg
+AngSys == [distance |-> "angstroms"]
+DlpolySys == [distance |-> "angstroms", time |-> "picoseconds", mass |-> "atomic_mass_units", charge |-> "e",
+              velocity |-> "angstroms_per_picosecond"]
+DlForceSI == (SIMass[DlpolySys.mass] \oplus SIDistance[DlpolySys.distance]) \ominus Scale(2, SITime[DlpolySys.time])
+CsgForceSI == SI("MolarForce", Csg.force)
+DistIn(u) == SpecConv("Distance", u, Csg.distance)
+IOVec == [
+  groreader_pos |-> DistIn(GroSys.distance), groreader_box |-> DistIn(GroSys.distance),
+  groreader_vel |-> SpecConv("Velocity", GroSys.velocity, Csg.velocity),
+  growriter_pos |-> Neg(DistIn(GroSys.distance)), growriter_box |-> Neg(DistIn(GroSys.distance)),
+  growriter_vel |-> SpecConv("Velocity", Csg.velocity, GroSys.velocity),
+  xyzreader_pos |-> DistIn(AngSys.distance), xyzwriter_pos |-> Neg(DistIn(AngSys.distance)),
+  pdbreader_pos |-> DistIn(AngSys.distance), pdbreader_box |-> DistIn(AngSys.distance),
+  pdbwriter_pos |-> Neg(DistIn(AngSys.distance)),
+  dlpolyreader_pos |-> DistIn(DlpolySys.distance), dlpolyreader_box |-> DistIn(DlpolySys.distance),
+  dlpolyreader_vel |-> SpecConv("Velocity", DlpolySys.velocity, Csg.velocity),
+  dlpolyreader_force |-> DlForceSI \ominus CsgForceSI,
+  dlpolywriter_pos |-> Neg(DistIn(DlpolySys.distance)), dlpolywriter_box |-> Neg(DistIn(DlpolySys.distance)),
+  dlpolywriter_vel |-> SpecConv("Velocity", Csg.velocity, DlpolySys.velocity),
+  dlpolywriter_force |-> CsgForceSI \ominus DlForceSI]
+IONames == <<"groreader_pos", "groreader_box", "groreader_vel", "growriter_pos", "growriter_box", "growriter_vel",
+             "xyzreader_pos", "xyzwriter_pos", "pdbreader_pos", "pdbreader_box", "pdbwriter_pos",
+             "dlpolyreader_pos", "dlpolyreader_box", "dlpolyreader_vel", "dlpolyreader_force",
+             "dlpolywriter_pos", "dlpolywriter_box", "dlpolywriter_vel", "dlpolywriter_force">>
+(* products of constants used in the sources, literals in scripts, unit switches of tools::Elements *)
+ExprVec == [
+  \* csg_boltzmann/tabulatedpotential.cc: conv::kB * conv::ev2kj_per_mol = k_B in kJ/mol/K
+  kB_times_ev2kj_per_mol |-> (G("kB", 1) \oplus G("NA", 1)) \ominus Ten(3),
+  \* csg/share/scripts/inverse/functions_gromacs.sh: literal 0.00831451 "k_b in gromacs units"
+  script_gromacs_kB |-> (G("kB", 1) \oplus G("NA", 1)) \ominus Ten(3),
+  \* tools::Elements::getCovRad(name, unit): ratio of the "bohr" / "nm" answer to the "ang" answer
+  covrad_bohr_per_ang |-> SpecConv("Distance", "angstroms", "bohr"),
+  covrad_nm_per_ang |-> SpecConv("Distance", "angstroms", "nanometers")]
+ExprNames == <<"kB_times_ev2kj_per_mol", "script_gromacs_kB", "covrad_bohr_per_ang", "covrad_nm_per_ang">>
+
 UCPlaces == {UC(d, a, b) : <<d, a, b>> \in
                UNION {{<<d, a, b>> : a \in UnitsOf(d), b \in UnitsOf(d)} : d \in Dims}}
 ConstPlaces == {CONST(n) : n \in DOMAIN ConstVec}
 LammpsPlaces == {LMP(n) : n \in DOMAIN LammpsVec}
-OtherPlaces == ConstPlaces \cup LammpsPlaces
+IOPlaces == {IO(n) : n \in DOMAIN IOVec}
+ExprPlaces == {EXPR(n) : n \in DOMAIN ExprVec}
+OtherPlaces == ConstPlaces \cup LammpsPlaces \cup IOPlaces \cup ExprPlaces
 
 PlaceVec(p) == CASE p.t = "uc" -> AlgoConv(p.dim, p.a, p.b)
                  [] p.t = "const" -> ConstVec[p.a]
                  [] p.t = "lammps" -> LammpsVec[p.a]
+                 [] p.t = "io" -> IOVec[p.a]
+                 [] p.t = "expr" -> ExprVec[p.a]
                  [] p.t = "gen" -> G(p.a, 1)
 
 -----------------------------------------------------------------------------
@@ -254,8 +305,10 @@ LammpsNames == <<"dumpreader_pos", "dumpreader_pos_xs", "dumpreader_pos_xu", "du
                  "datareader_pos", "datareader_box", "datareader_mass", "datareader_charge">>
 ASSUME /\ {ConstNames[i] : i \in DOMAIN ConstNames} = DOMAIN ConstVec
        /\ {LammpsNames[i] : i \in DOMAIN LammpsNames} = DOMAIN LammpsVec
-OtherSeq == [i \in 1..(Len(ConstNames) + Len(LammpsNames)) |->
-               IF i <= Len(ConstNames) THEN CONST(ConstNames[i]) ELSE LMP(LammpsNames[i - Len(ConstNames)])]
+       /\ {IONames[i] : i \in DOMAIN IONames} = DOMAIN IOVec
+       /\ {ExprNames[i] : i \in DOMAIN ExprNames} = DOMAIN ExprVec
+OtherSeq == [i \in DOMAIN ConstNames |-> CONST(ConstNames[i])] \o [i \in DOMAIN LammpsNames |-> LMP(LammpsNames[i])]
+            \o [i \in DOMAIN IONames |-> IO(IONames[i])] \o [i \in DOMAIN ExprNames |-> EXPR(ExprNames[i])]
 SamePairs ==
   {<<OtherSeq[i], OtherSeq[j]>> : <<i, j>> \in {ij \in (DOMAIN OtherSeq) \X (DOMAIN OtherSeq) : ij[1] < ij[2]}}
   \cup (OtherPlaces \X {p \in UCPlaces : p.a # p.b})
@@ -311,6 +364,10 @@ ElMilli == <<1008, 4003, 6940, 9012, 10810, 12011, 14007, 15999, 18998, 20180,
              231036, 238029, 0, 0, 0, 0, 0, 0, 0, 0,
              0, 0, 0, 0, 0, 0, 0, 0, 0, 0,
              0, 0, 0, 0, 0, 0, 0, 0>>
+\* plausibility bands that pin the UNIT of the remaining tools::Elements tables (header: covalent and
+\* van-der-Waals radii in Angstrom, polarizabilities in nm^3): radii in 1/1000 A, polarizability in 1e-6 nm^3
+\* (0.2 A^3 for He ... 60 A^3 for Cs).  A table in the wrong unit (nm, pm, bohr^3, A^3) leaves the band.
+RadiiRanges == [covrad |-> <<200, 2700>>, vdw |-> <<1000, 3000>>, polar |-> <<100, 100000>>]
 NEl == Len(ElSym)
 ElementRecs == {[z |-> z, sym |-> ElSym[z], mm |-> ElMilli[z]] : z \in 1..NEl}
 NoEl == [z |-> 0, sym |-> "", mm |-> 0]
@@ -338,6 +395,13 @@ DiagonalOnly == ob.kind = "value" /\ ob.terms[1].p.t = "uc" =>
 \* the declared unit systems are coherent and every lammps factor is the
 \* conversion between the declared systems
 DeclaredCoherent == Coherent(LammpsReal) /\ Coherent(Csg)
+\* vacuity guard: every place of every layer has its value obligation, the identity conversions of the gro
+\* format are among them (zero vector), and the DL_POLY force factor is the non-trivial 10^-2 / (N_A m_u)
+LayersPresent == /\ \A p \in OtherPlaces : [kind |-> "value", terms |-> <<T(p, 1)>>] \in Obligations
+                 /\ Cardinality(OtherPlaces) = Len(OtherSeq)
+                 /\ IOVec["groreader_vel"] = Zero
+                 /\ IOVec["dlpolywriter_force"] = (Ten(-2) \ominus G("NA", 1)) \ominus G("amu", 1)   \* = 10 (1 + 3.5e-10)
+                 /\ Coherent(GroSys)
 \* element table: symbols pairwise distinct, weights positive where given
 ElementTableOK == el # NoEl =>
                     /\ \A z \in 1..NEl : z # el.z => ElSym[z] # el.sym
@@ -346,7 +410,8 @@ ElementTableOK == el # NoEl =>
 
 Export == Emit =>
   IF ob = DeclOb
-  THEN PrintT(ToJson([kind |-> "declared", lammps |-> LammpsReal, csg |-> Csg]))
+  THEN PrintT(ToJson([kind |-> "declared", lammps |-> LammpsReal, csg |-> Csg, gro |-> GroSys, ang |-> AngSys,
+                      dlpoly |-> DlpolySys, ranges |-> RadiiRanges]))
   ELSE IF ob # NoOb
   THEN PrintT(ToJson([kind |-> ob.kind, terms |-> ob.terms,
                       vec |-> IF ob.kind \in {"value", "near"} THEN SumTerms(ob.terms) ELSE Zero]))
